@@ -119,6 +119,7 @@ inductive Op where
   | clone (r r2 : Nat)
   | drop (r : Nat)
   | parse (t : Bytes)
+  | note
   | bad (line : String)
 
 /-- `name=v1,v2;name2=...` : per constraint name the accepted substrings of the path -/
@@ -134,6 +135,7 @@ def parseTable (s : String) : Option (List (Bytes × List Bytes)) :=
 
 def parseOp (line : String) : Op :=
   let bad := Op.bad line
+  if line.startsWith "#" then .note else
   match line.trimAscii.toString.splitOn " " with
   | ["reset"] => .reset
   | ["new", r, bs] =>
